@@ -254,7 +254,24 @@ def build_harness(prop, log):
     return rc == 0, out
 
 
-def run_harness(prop, tier, seed, log, replay=None, tag=""):
+def sh_group(cmd, cwd=None, env=None, timeout=None):
+    """like sh, but the command gets its own process group and the whole group is killed at the time limit
+    (harness cases run in sub-processes)"""
+    import signal
+    p = subprocess.Popen(cmd, cwd=cwd, env=env, stdout=subprocess.PIPE, stderr=subprocess.STDOUT, start_new_session=True)
+    try:
+        o, _ = p.communicate(timeout=timeout)
+    except subprocess.TimeoutExpired:
+        try:
+            os.killpg(p.pid, signal.SIGKILL)
+        except OSError:
+            pass
+        p.communicate()
+        raise
+    return p.returncode, o.decode("utf-8", "replace")
+
+
+def run_harness(prop, tier, seed, log, replay=None, tag="", budget=None):
     # per-run names: concurrent runs of the same check must not delete each other's files
     out = os.path.join(BUILD, "run_%s_%s%s_%d.jsonl" % (prop, tier, tag, os.getpid()))
     work = os.path.join(BUILD, "work_%s_%d" % (prop, os.getpid()))
@@ -266,10 +283,13 @@ def run_harness(prop, tier, seed, log, replay=None, tag=""):
     if replay:
         cmd.append("replay=" + replay)
     t = 3600 if tier == "thorough" else 900
+    if budget:
+        # a search inside a quick check: stopped at the budget, the cases written so far are used
+        t = budget
     try:
-        rc, o = sh(cmd, cwd=work, env=GOENV, timeout=t)
+        rc, o = sh_group(cmd, cwd=work, env=GOENV, timeout=t)
     except subprocess.TimeoutExpired:
-        rc, o = 124, "harness timed out after %d s" % t
+        rc, o = 124, ("search stopped at its budget of %d s" if budget else "harness timed out after %d s") % t
     log.append(o[-4000:])
     shutil.rmtree(work, ignore_errors=True)
     cases, stats = [], {}
@@ -449,7 +469,9 @@ def main():
         searched = True
         found = []
         for (t, s, tag) in ((("thorough", seed, "_search"),) if tier == "quick" else ()) + (("thorough", seed + 7919, "_search2"),):
-            rc, o, cs, _ = run_harness(prop, t, s, log, tag=tag)
+            # inside a quick check each search run gets a time budget (VERIF_SEARCH_BUDGET seconds, default 200)
+            budget = int(os.environ.get("VERIF_SEARCH_BUDGET", "200")) if tier == "quick" else None
+            rc, o, cs, _ = run_harness(prop, t, s, log, tag=tag, budget=budget)
             rs, _ = run_model(cs, log)
             f, _m = triage(rs)
             found.extend(f)
